@@ -1039,10 +1039,110 @@ def _def_copies(du, d, targets, depth=0):
     return len(ds) == 1 and _def_copies(du, ds[0], targets, depth + 1)
 
 
+class _SplitFn:
+    """A view of a MIR body in which struct-typed locals that are built by a struct literal and then used field by field
+    (`let mut cursor = Cursor { prev, current }; cursor.prev = ..`) are replaced by one virtual local per field, so that
+    def-use reasoning sees `cursor.current` like a variable `current`. Whole-struct moves become struct aggregates of the
+    virtual locals. Only `.blocks`, `.mir['arg_count']`, `.mir['locals']` are provided (what DefUse and the walk helpers read)."""
+
+    def __init__(self, g):
+        n = len(g.mir["locals"])
+        fields_of = {}
+        ok_ = {}
+        for b in g.blocks:
+            for st in b["stmts"]:
+                if st["k"] != "assign":
+                    continue
+                pl, rv = st["place"], st["rv"]
+                if not pl["p"]:
+                    if rv["k"] == "agg" and rv["agg"].get("k") == "adt" and not rv["agg"].get("is_enum") and rv["agg"].get("fields"):
+                        fields_of.setdefault(pl["l"], list(rv["agg"]["fields"]))
+                        ok_.setdefault(pl["l"], True)
+                    else:
+                        ok_[pl["l"]] = False
+            t = b["term"]
+            if t["k"] == "call" and not t["dest"]["p"]:
+                ok_[t["dest"]["l"]] = False
+        split = {l: fs for l, fs in fields_of.items() if ok_.get(l) and l > g.mir["arg_count"]}
+        # a split local may only occur as `L.field...` or as a whole-value move/copy
+        def bad_use(place):
+            return place["l"] in split and place["p"] and not (place["p"][0]["k"] == "field" and place["p"][0]["name"] in split[place["l"]])
+        for b in g.blocks:
+            for st in b["stmts"]:
+                if st["k"] == "assign":
+                    for q in [st["place"]] + rvalue_places(st["rv"]):
+                        if bad_use(q):
+                            split.pop(q["l"], None)
+                    if st["rv"]["k"] in ("ref", "rawptr") and st["rv"]["place"]["l"] in split and not st["rv"]["place"]["p"]:
+                        split.pop(st["rv"]["place"]["l"], None)
+            t = b["term"]
+            for a in (t.get("args") or []) if t["k"] == "call" else []:
+                q = op_place(a)
+                if q is not None and q["l"] in split and not q["p"]:
+                    split.pop(q["l"], None)
+        self.virt = {}
+        locals_ = list(g.mir["locals"])
+        for l, fs in split.items():
+            for fname in fs:
+                self.virt[(l, fname)] = len(locals_)
+                locals_.append({"name": "%s.%s" % (g.local_name(l) or "_%d" % l, fname), "ty": "?"})
+        self.mir = {"arg_count": g.mir["arg_count"], "locals": locals_}
+        self.split = split
+
+        def rp(place):
+            if place["l"] in split and place["p"]:
+                return {"l": self.virt[(place["l"], place["p"][0]["name"])], "p": place["p"][1:]}
+            return place
+
+        def rop(op):
+            q = op_place(op)
+            if q is None:
+                return op
+            if q["l"] in split and not q["p"]:
+                return None       # whole-struct use: handled by the caller
+            return {"k": op["k"], "place": rp(q)}
+
+        def whole_agg(l):
+            return {"k": "agg", "agg": {"k": "adt", "path": "", "variant": "", "is_enum": False, "fields": list(split[l])},
+                    "ops": [{"k": "copy", "place": {"l": self.virt[(l, fname)], "p": []}} for fname in split[l]]}
+        blocks = []
+        for b in g.blocks:
+            stmts = []
+            for st in b["stmts"]:
+                if st["k"] != "assign":
+                    stmts.append(st)
+                    continue
+                pl, rv = st["place"], st["rv"]
+                if pl["l"] in split and not pl["p"] and rv["k"] == "agg":
+                    for fname, o in zip(split[pl["l"]], rv["ops"]):
+                        stmts.append({"k": "assign", "place": {"l": self.virt[(pl["l"], fname)], "p": []}, "rv": {"k": "use", "op": rop(o) or o}, "ln": st.get("ln")})
+                    continue
+                nrv = dict(rv)
+                if rv["k"] in ("use", "cast") and op_place(rv["op"]) is not None and op_place(rv["op"])["l"] in split and not op_place(rv["op"])["p"]:
+                    nrv = whole_agg(op_place(rv["op"])["l"])
+                else:
+                    for key_ in ("op", "l", "r", "x"):
+                        if key_ in nrv and isinstance(nrv[key_], dict) and nrv[key_].get("k") in ("copy", "move"):
+                            nrv[key_] = rop(nrv[key_]) or nrv[key_]
+                    if "ops" in nrv:
+                        nrv["ops"] = [rop(o) or o for o in nrv["ops"]]
+                    if "place" in nrv and isinstance(nrv["place"], dict) and "l" in nrv["place"]:
+                        nrv["place"] = rp(nrv["place"])
+                stmts.append({"k": "assign", "place": rp(pl), "rv": nrv, "ln": st.get("ln")})
+            t = b["term"]
+            if t["k"] == "call":
+                t = dict(t)
+                t["args"] = [rop(a) or a for a in t["args"]]
+                t["dest"] = rp(t["dest"])
+            blocks.append({"stmts": stmts, "term": t, "cleanup": b.get("cleanup")})
+        self.blocks = blocks
+
+
 def _list_walk_roles(g, head_params=()):
     """(cursor locals, predecessor locals) of a walk over the open-upvalue list in the MIR body g: the cursor is assigned
     the list head (a read of `open_upvalues`, or one of the parameters `head_params` that the caller fills with it) and is
     advanced through a node's `next`; a predecessor receives the cursor before it advances."""
+    g = _split_view(g)
     du = DefUse(g)
     n = len(g.mir["locals"])
     heads = set(head_params)
@@ -1061,6 +1161,7 @@ def _list_walk_roles(g, head_params=()):
 def _returned_roles(g, cursors, preds):
     """what a helper that walks the list hands back: {None: role} when it returns one value, {'0': role, '1': role} for a
     tuple; role is 'cursor' / 'pred' for plain copies of the walk's cursor / predecessor at the exit of the walk"""
+    g = _split_view(g)
     du = DefUse(g)
     out = {}
     ds = _whole_defs(du, 0)
@@ -1093,14 +1194,38 @@ def _returned_roles(g, cursors, preds):
             r = role_of(o)
             if r:
                 out[str(i)] = r
+    elif rv["k"] == "agg" and rv["agg"]["k"] == "adt" and not rv["agg"].get("is_enum") and rv["agg"].get("fields"):
+        # a small struct { prev, current }: the caller reads the roles by field name
+        for fname, o in zip(rv["agg"]["fields"], rv["ops"]):
+            r = role_of(o)
+            if r:
+                out[fname] = r
     return out
+
+
+def _split_view(g):
+    if isinstance(g, _SplitFn):
+        return g
+    v = getattr(g, "_c06_split", None)
+    if v is None:
+        v = _SplitFn(g)
+        g._c06_split = v
+    return v
 
 
 def rule_n(F):
     """MIR: in register_upvalue, the block that writes `<prev>.next = new` or `open_upvalues = new` must be preceded on
     every path from the creation of the new node (init_upvalue) by a write of `<new>.next`."""
     res = []
-    f = F.fn(IE + "register_upvalue")
+    # the function that creates the new upvalue and links it in: register_upvalue itself, or the part of it that handles a
+    # captured local (found by what it does: the function of vm::instr_execution that calls init_upvalue)
+    f = F.fn(IE + "register_upvalue", required=False)
+    makers = [g for g in F.fns if g.mir and not g.is_closure and g.short.startswith(IE)
+              and any(any(n.endswith("init_upvalue") for n in callee_names(t["func"])) for _b, t in mu.calls(g))]
+    if f is None or f not in makers:
+        if len(makers) != 1:
+            raise AnchorMissing("init_upvalue call in register_upvalue (found %d candidate functions)" % len(makers))
+        f = makers[0]
     cfg = f.cfg
     inits = [bi for bi, t in mu.calls(f) if any(n.endswith("init_upvalue") for n in callee_names(t["func"]))]
     if not inits:
@@ -1479,11 +1604,18 @@ def rule_w(F):
                                "upvalue index of the enclosing function is used as an index into the inner function's own upvalue list"))
                 continue
             for a_ in arms_up:
-                mine = [x for x in hir_walk(a_["body"]) if x.get("k") == "call" and any(n.endswith("compiler::Variable::Upvalue") for n in hir_callee(x)) and x["args"]]
+                # constructions in the arm: Variable::Upvalue(src) or <src>.map(Variable::Upvalue)
+                mine = []
+                for x in hir_walk(a_["body"]):
+                    if x.get("k") == "call" and any(n.endswith("compiler::Variable::Upvalue") for n in hir_callee(x)) and x["args"]:
+                        mine.append(x["args"][0])
+                    elif x.get("k") == "mcall" and x["name"] == "map" and x["args"] and hu.strip_all(x["args"][0]).get("k") == "path" and \
+                            short(hu.strip_all(x["args"][0])["path"]["res"].get("path", "")).endswith("Variable::Upvalue"):
+                        mine.append(x["recv"])
                 payload = set(i for i, _n in pat_bindings_(a_["pat"]))
-                passes_on = [x for x in mine if hir_local_id(hu.strip_all(x["args"][0])) in payload] or \
+                passes_on = [src for src in mine if hir_local_id(hu.strip_all(src)) in payload] or \
                     (hir_local_id(hu.strip_all(a_["body"])) is not None)
-                if mine and all(from_add_upvalue(x["args"][0]) for x in mine) and not passes_on:
+                if mine and all(from_add_upvalue(src) for src in mine) and not passes_on:
                     res.append(ok("C06.W", key2, f.loc(a_["body"].get("ln")), "the arm that saw an upvalue of the enclosing function registers and returns its own index"))
                 else:
                     res.append(bad("C06.W", key2, f.loc(a_["body"].get("ln")),
